@@ -13,6 +13,13 @@ CLAIMED = {
  'C08': dict(level='exploration', design='5.8',
    text="Seeded search over interleavings of 1..3 caller threads (post/abort, also from inside tasks) with the real NewThreadScheduler worker, with spurious wake-ups injected; every run's recorded history is checked against the statement (single runner, no overlap, at-most-once, real-time FIFO, nothing taken after abort returned, nothing lost without abort, worker exits within a bounded number of own steps). Exploration is the right level: the property is quantified over schedules, which the simulator samples by the hundred thousand and replays exactly.",
    technique='deterministic simulation: seeded random/sticky/PCT scheduling of real threads at lock granularity + injected spurious wake-ups, history oracle'),
+ 'C09': dict(level='exploration', design='5.9',
+   text="Seeded search over interleavings of the emitting thread, the real scheduler worker(s) and an optional unsubscribing thread, for scripted sources (cold or on their own thread) through observe_on / subscribe_on at any position of a short pipeline and stacked twice, subscribed once or twice. Oracle: recorded events equal the script (prefix under unsubscribe), callbacks on one worker thread that is not the emitter, never overlapping, nothing whose emission started after unsubscribe returned; subscribe_on subscribes the source on a worker.",
+   technique='deterministic simulation: seeded scheduling of source/worker/unsubscriber threads + spurious wake-ups, history equality oracle'),
+ 'C18': dict(level='exploration', design='5.18',
+   text="Seeded search over interleavings of Future::poll (driven by a minimal executor on the simulated Mutex/Condvar, with eager re-polls and injected spurious wake-ups) with a source emitting on another thread. Oracle: Ready never before the source's terminal call started, never Pending for a poll started after it returned, exact items/error payload, and no deadlock (= no lost wake-up).",
+   technique='deterministic simulation: seeded scheduling incl. scheduling points at lock release, spurious wake-ups; deadlock = lost wake-up'),
+ # -- more claimed
 }
 NA = {
  'C02': "pure function of (operator, parameters, input list): there is no schedule, clock, fault or second party in the statement, so it is not a simulation target (DESIGN.md 5.2); deciding it would be input enumeration against a reference interpreter, a different technique",
